@@ -479,6 +479,41 @@ func ruleSyncMessageLimit(c *Ctx) {
 // tail, index and the flush countdown — or stale records stay in the window;
 // and the log's index is persisted in this member's own region storage, not in
 // the store shared by all members.
+// ruleRingModulus: the change log is a ring of `size` slots (capacity size−1);
+// every position in it is computed modulo the number of slots. A position
+// reduced modulo anything else points at the wrong record once the ring has
+// wrapped.
+func ruleRingModulus(c *Ctx) {
+	P := c.P
+	const rs = "server/region_syncer"
+	rule := c.Prop + "/history-flush"
+	size := P.Field(rs, "historyBuffer", "size")
+	n, okAll := 0, true
+	bad := ""
+	for _, fn := range P.Funcs {
+		if fnPkgPath(fn) != modPath+"/"+rs || fn.Signature.Recv() == nil || P.isScaffold(fn) {
+			continue
+		}
+		if rn := namedOf(fn.Signature.Recv().Type()); rn == nil || rn.Obj().Name() != "historyBuffer" {
+			continue
+		}
+		for _, b := range fn.Blocks {
+			for _, ins := range b.Instrs {
+				bo, ok := ins.(*ssa.BinOp)
+				if !ok || bo.Op != token.REM {
+					continue
+				}
+				n++
+				if !isLoadOf(bo.Y, size) {
+					okAll = false
+					bad = P.instrPos(bo)
+				}
+			}
+		}
+	}
+	c.Check(okAll && n >= 3, rule, "ring positions of the change log", "every position is reduced modulo the slot count (historyBuffer.size)", P.pos(P.Method(rs, "historyBuffer", "RecordsFrom").Pos()), fmt.Sprintf("%d modulo operations; other modulus at %s", n, bad))
+}
+
 func ruleHistoryReset(c *Ctx) {
 	P := c.P
 	rule := c.Prop + "/history"
@@ -525,7 +560,7 @@ func init() {
 		c.Group("C16/slice-congruence", "at every SyncRegionResponse literal carrying regions, Regions / RegionStats / RegionLeaders are length-congruent on every path and loop iteration", func() { ruleSyncArrays(c) })
 		c.Group("C16/sender-pairing", "meta, statistics and leader of one entry come from one region and one index; start indexes; full sync skipped only when exactly in sync", func() { ruleSenderPairing(c) })
 		c.Group("C16/leader-placeholder", "a leaderless region is sent with an empty peer in its slot", func() { ruleLeaderPlaceholder(c) })
-		c.Group("C16/history", "change-log buffer: fields under its lock; index++ and flush accounting on every record, persisted every defaultFlushCount=100; RecordsFrom answers only inside the window and returns a copy", func() { ruleHistoryBuffer(c); ruleHistoryReset(c) })
+		c.Group("C16/history", "change-log buffer: fields under its lock; index++ and flush accounting on every record, persisted every defaultFlushCount=100; RecordsFrom answers only inside the window and returns a copy", func() { ruleHistoryBuffer(c); ruleHistoryReset(c); ruleRingModulus(c) })
 		c.Group("C16/follower-apply", "the follower records a region only after put+save, indexes leaders/stats only under length guards, re-bases on index mismatch", func() { ruleFollowerApply(c); rulePerRegionLeader(c); ruleSyncMessageLimit(c); ruleFollowerFieldMap(c) })
 		c.Group("C16/load-prunes", "(shared with C17) the follower loads its own region storage once per process and never again over the synchronised view", func() { ruleLoadedOnceAfterSuccess(c) })
 		c.Group("C16/saved-copy-not-aliased", "(shared with C06) saving a synchronised region never rewrites the keys of the region just put into the cache", func() { ruleSavedCopyNotAliased(c) })
